@@ -82,7 +82,7 @@ def dispatcher_check(ctx):
               q = rng.choice(fc.NAMES[1:]) + rng.choice([[], ['x']])
               cands = [k for k in reg if list(k) == q[:len(k)]]
               before = len(log)
-              ret = d.dispatch(enc.Name.from_str('/' + '/'.join(q)), enc.InterestParam(), None)
+              ret = d.dispatch(enc.Name.from_str(fibkit.nm(q)), enc.InterestParam(), None)
               want = reg[max(cands, key=len)] if cands else None
               got = log[before:] if len(log) > before else []
               ctx.evaluations += 1
